@@ -95,6 +95,8 @@ Builtin(f, args, consts) ==
           ELSE IF ~IsArr(A(1)) \/ ~IsIntegral(A(2)) THEN Err
           ELSE IF A(2).n < 0 \/ A(2).n >= Len(A(1).e) THEN Err
           ELSE A(1).e[A(2).n + 1]
+   \* FUSE hands the object on; what makes it special is the select stage, which blends the object's keys into the row
+   [] f = "fuse" -> IF IsNull(A(1)) THEN Null ELSE IF IsObj(A(1)) THEN A(1) ELSE Err
    [] f = "unwind" -> IF IsNull(A(1)) THEN Null ELSE IF ~IsArr(A(1)) THEN Err ELSE ArrV(Unwind1(A(1).e))
    [] f = "array"  -> ArrV(args)
    [] f = "concat" -> IF \E i \in DOMAIN args : ~IsScalar(args[i]) THEN Err
